@@ -582,6 +582,11 @@ type AuctionRec struct {
 	T      time.Duration
 	Pub    phase0.BLSPubKey
 	Config *beaconblockproposer.ProposerConfig
+	Slot   phase0.Slot
+	Parent phase0.Hash32
+	// EndStep/Failed: set when the strategy returned (Failed: with an error)
+	EndStep int
+	Failed  bool
 }
 
 type BidProvider struct {
@@ -592,10 +597,14 @@ type BidProvider struct {
 func (b *BidProvider) BuilderBid(ctx context.Context, slot phase0.Slot, parentHash phase0.Hash32, pubkey phase0.BLSPubKey,
 	proposerConfig *beaconblockproposer.ProposerConfig, _ map[phase0.BLSPubKey]*blockrelay.BuilderConfig,
 ) (*blockauctioneer.Results, error) {
+	var idx int
 	simrt.Crit(func() {
-		b.Auctions = append(b.Auctions, AuctionRec{Step: simrt.Step(), T: simrt.Now(), Pub: pubkey, Config: proposerConfig})
+		idx = len(b.Auctions)
+		b.Auctions = append(b.Auctions, AuctionRec{Step: simrt.Step(), T: simrt.Now(), Pub: pubkey, Config: proposerConfig, Slot: slot, Parent: parentHash})
 	})
+	defer func() { simrt.Crit(func() { b.Auctions[idx].EndStep = simrt.Step() }) }()
 	if _, err := b.w.Script.Do(ctx, "strategy", "BuilderBid", nil); err != nil {
+		simrt.Crit(func() { b.Auctions[idx].Failed = true })
 		return nil, err
 	}
 	res := &blockauctioneer.Results{Participation: map[string]*blockauctioneer.Participation{}}
